@@ -71,6 +71,8 @@ pub struct Case<'a> {
     st: &'a mut Stats,
     record: bool,
     pub verbose: bool,
+    /// violations that do not abort the case (the remaining obligations are still checked)
+    pub soft: Vec<String>,
 }
 
 impl Case<'_> {
@@ -124,6 +126,12 @@ impl Case<'_> {
             *self.st.counters.entry(key.to_string()).or_insert(0) += n;
         }
     }
+    /// record a violated obligation but keep checking the rest of this case
+    pub fn soft_violation(&mut self, msg: String) {
+        if self.soft.len() < 4 {
+            self.soft.push(msg);
+        }
+    }
     pub fn log(&self, s: &str) {
         if self.verbose {
             println!("    {s}");
@@ -168,6 +176,8 @@ pub struct Ctx {
     pub described: Option<(String, String)>,
     slot: *mut u64,
     stop: bool,
+    known: Vec<Known>,
+    new_violations: usize,
 }
 
 impl Ctx {
@@ -184,6 +194,8 @@ impl Ctx {
             described: None,
             slot,
             stop: false,
+            known: load_known(),
+            new_violations: 0,
         }
     }
     pub fn quick(&self) -> bool {
@@ -250,36 +262,44 @@ impl Ctx {
         if self.stats.samples.len() < 3 || (idx % 9973 == 7 && self.stats.samples.len() < 6) {
             self.stats.samples.push(format!("[{family} #{idx}] {}", desc()));
         }
-        let r = {
-            let mut c = Case { st: &mut self.stats, record: true, verbose: single };
-            run_guarded(&body, &mut c)
+        let msgs = {
+            let mut c = Case { st: &mut self.stats, record: true, verbose: single, soft: vec![] };
+            let r = run_guarded(&body, &mut c);
+            let mut m = std::mem::take(&mut c.soft);
+            if let Err(e) = r {
+                m.push(e);
+            }
+            m
         };
-        if let Err(msg) = r {
+        if !msgs.is_empty() {
             // determinism: the same case must fail the same way twice more
             let mut scratch = Stats::default();
-            let mut same = true;
             for _ in 0..2 {
-                let mut c = Case { st: &mut scratch, record: false, verbose: false };
-                match run_guarded(&body, &mut c) {
-                    Err(m2) if m2 == msg => {}
-                    other => {
-                        same = false;
-                        eprintln!(
-                            "MACHINERY: nondeterministic verdict for case {idx} ({family}): first {:?}, then {:?}",
-                            msg, other
-                        );
-                    }
+                let mut c = Case { st: &mut scratch, record: false, verbose: false, soft: vec![] };
+                let r = run_guarded(&body, &mut c);
+                let mut m2 = std::mem::take(&mut c.soft);
+                if let Err(e) = r {
+                    m2.push(e);
+                }
+                if m2 != msgs {
+                    eprintln!("MACHINERY: nondeterministic verdict for case {idx} ({family}): first {:?}, then {:?}", msgs, m2);
+                    eprintln!("MACHINERY: case description: {}", desc());
+                    std::process::exit(3);
                 }
             }
-            if !same {
-                eprintln!("MACHINERY: case description: {}", desc());
-                std::process::exit(3);
+            for msg in msgs {
+                if single {
+                    println!("  => VIOLATION: {msg}");
+                }
+                let v = Violation { family: family.to_string(), idx, desc: desc(), msg };
+                if known_match(&self.known, self.prop, &v).is_none() {
+                    self.new_violations += 1;
+                }
+                if self.violations.len() < 4096 {
+                    self.violations.push(v);
+                }
             }
-            if single {
-                println!("  => VIOLATION: {msg}");
-            }
-            self.violations.push(Violation { family: family.to_string(), idx, desc: desc(), msg });
-            if self.violations.len() >= MAX_VIOLATIONS_PER_WORKER {
+            if self.new_violations >= std::env::var("ZVERIF_MAX_VIOL").ok().and_then(|s| s.parse().ok()).unwrap_or(MAX_VIOLATIONS_PER_WORKER) {
                 self.stop = true;
             }
         } else if single {
@@ -692,7 +712,7 @@ pub fn run_parent(info: &CheckInfo, tier: Tier, extra_cov: Option<Value>) -> i32
     if !new_violations.is_empty() {
         std::fs::create_dir_all(&rdir).unwrap();
     }
-    for v in new_violations.iter().take(20) {
+    for v in new_violations.iter().take(std::env::var("ZVERIF_MAX_REPLAYS").ok().and_then(|s| s.parse().ok()).unwrap_or(20)) {
         let p = rdir.join(format!("{}-{}.json", tier.name(), v.idx));
         let j = json!({
             "property": prop, "tier": tier.name(), "family": v.family, "index": v.idx,
